@@ -25,6 +25,10 @@ def _one(task):
             bad = {k: (built.get(k), v) for k, v in exp.items() if built.get(k) != v}
             if bad:
                 lenprob = bad
+        if lenprob and any(k in lenprob for k in ('rows', 'cols')):
+            # the result does not even have the documented shape: the value comparison is moot
+            return dict(task=task, status='shape', lenprob=lenprob, nets=len(block.logic),
+                        wall=time.time() - t0)
         W = c.W(params) if callable(c.W) else (c.W or 64)
         status, cex, dt, names = comb_check(block, c.spec, params, W, pre_fn=c.pre,
                                             timeout_ms=opts.get('timeout_ms', 60000))
